@@ -192,7 +192,11 @@ func (d *rdb) withFlushCrashPoints(kind string, f func()) {
 	if kind == "create" {
 		alloc = 1
 	}
+	preDir := ""
 	storage.VerifSetHook(func(ev string, arg uint64) {
+		if preDir == "" && (ev == "page.write" || ev == "hdr.write") {
+			preDir = d.captureImage(-1) // the data file before this flush wrote anything
+		}
 		switch ev {
 		case "page.write":
 			images = append(images, img{len(order), d.captureImage(-1)})
@@ -203,6 +207,11 @@ func (d *rdb) withFlushCrashPoints(kind string, f func()) {
 	})
 	f()
 	storage.VerifSetHook(nil)
+	defer func() {
+		if preDir != "" {
+			os.RemoveAll(preDir)
+		}
+	}()
 	if len(order) == 0 {
 		for _, im := range images {
 			os.RemoveAll(im.dir)
@@ -218,8 +227,79 @@ func (d *rdb) withFlushCrashPoints(kind string, f func()) {
 		seen[im.j] = true
 		probe := d.flushProbe(im.j)
 		d.cfg.tr.Op("fimage %d %s alloc=%d order=%s%s", im.j, kind, alloc, strings.Join(order, ","), probeField(probe))
-		d.guard(func() string { d.inspectImage(im.dir, probe); return "" })
+		d.guard(func() string { d.inspectImageMode(im.dir, probe, alloc == 1 && im.j != 0); return "" })
 		d.cfg.st.Inc("flush-crash-images")
+		d.cfg.st.Inc(fmt.Sprintf("flush-crash-images.%s.alloc%d", kind, alloc))
+	}
+	// The order in which the flush wrote its pages is Go map iteration order; a crash can leave any
+	// subset of them written.  Other subsets are synthesised: the file before the flush with the
+	// chosen pages taken from the file after it (header still the old one).
+	if d.rs == nil || preDir == "" {
+		return
+	}
+	final := "data/" + d.name + "/tbl"
+	n := len(order)
+	var subsets [][]string
+	if n <= 4 {
+		for mask := 1; mask < 1<<uint(n)-1; mask++ {
+			var sub []string
+			for i := 0; i < n; i++ {
+				if mask&(1<<uint(i)) != 0 {
+					sub = append(sub, order[i])
+				}
+			}
+			subsets = append(subsets, sub)
+		}
+	} else {
+		rr := d.cfg.rng.Fork()
+		for k := 0; k < 6; k++ {
+			var sub []string
+			for i := 0; i < n; i++ {
+				if rr.Bool() {
+					sub = append(sub, order[i])
+				}
+			}
+			if len(sub) > 0 && len(sub) < n {
+				subsets = append(subsets, sub)
+			}
+		}
+	}
+	for _, sub := range subsets {
+		isPrefix := true
+		for i := range sub {
+			if sub[i] != order[i] {
+				isPrefix = false
+			}
+		}
+		if isPrefix {
+			continue // already covered by the observed order
+		}
+		imageSeq++
+		dir, _ := filepath.Abs(fmt.Sprintf("img%d", imageSeq))
+		copyTree(preDir, dir)
+		tbl := filepath.Join(dir, "data", d.name, "tbl")
+		func() {
+			src, err1 := os.Open(final)
+			dst, err2 := os.OpenFile(tbl, os.O_RDWR, 0644)
+			if err1 != nil || err2 != nil {
+				return
+			}
+			defer src.Close()
+			defer dst.Close()
+			buf := make([]byte, 4096)
+			for _, o := range sub {
+				var off int64
+				fmt.Sscan(o, &off)
+				if _, err := src.ReadAt(buf, off); err == nil {
+					dst.WriteAt(buf, off)
+				}
+			}
+		}()
+		probe := d.flushProbe(len(sub))
+		d.cfg.tr.Op("fimage %d %s alloc=%d order=%s%s", len(sub), kind, alloc, strings.Join(sub, ","), probeField(probe))
+		d.guard(func() string { d.inspectImageMode(dir, probe, alloc == 1); return "" })
+		d.cfg.st.Inc("flush-crash-images")
+		d.cfg.st.Inc("flush-crash-images.subset")
 		d.cfg.st.Inc(fmt.Sprintf("flush-crash-images.%s.alloc%d", kind, alloc))
 	}
 }
@@ -802,6 +882,12 @@ func runLimits(cfg *config, id int, r *hx.Rng) {
 		d.stmt(fmt.Sprintf("UPDATE t1 SET c1 = '%s' WHERE c0 = %d", str(380+r.Intn(25)), base+r.Intn(10)))
 	}
 	d.stmt("UPDATE t1 SET c1 = '' WHERE c0 = 2147483647")
+	// shrink stored rows (not the last cell of their page), also to NULL-free empties; grow others
+	for k := 0; k < 5; k++ {
+		d.stmt(fmt.Sprintf("UPDATE t1 SET c1 = '%s' WHERE c0 = %d", str(r.Intn(4)), base+r.Intn(20)))
+	}
+	d.stmt(fmt.Sprintf("UPDATE t2 SET c0 = 'a', c3 = '' WHERE c2 = %d", int64(172)*1000000007))
+	d.stmt(fmt.Sprintf("UPDATE t2 SET c3 = '%s' WHERE c1 = TRUE", str(3)))
 	d.selectEvery()
 	d.flush()
 	d.reopen()
@@ -876,7 +962,7 @@ func runDB(cfg *config) {
 			runCacheSizes(cfg, id, r.Fork(), cfg.tier == "thorough" && i%4 == 0)
 		}
 	case "c04":
-		n := 5 * cfg.scale
+		n := 3 * cfg.scale
 		for i := 0; i < n; i++ {
 			id++
 			runFlushCrashes(cfg, id, r.Fork())
@@ -1190,20 +1276,37 @@ func runFlushCrashes(cfg *config, id int, r *hx.Rng) {
 		})
 	}
 	mk()
-	for s, n := 0, r.Range(4, 14); s < n && d.rs != nil && len(tables) > 0; s++ {
+	mk()
+	// several leaves per table, so that one flush has several old pages to write
+	for _, t := range tables {
+		var rows [][]interface{}
+		for k, m := 0, r.Range(10, 22); k < m; k++ {
+			rows = append(rows, genRowValues(r, t, false))
+		}
+		d.insertv(t.name, nil, rows)
+	}
+	d.flush()
+	for s, n := 0, r.Range(6, 16); s < n && d.rs != nil && len(tables) > 0; s++ {
 		t := tables[r.Intn(len(tables))]
-		switch x := r.Intn(10); {
-		case x < 6:
+		// mostly statements that change existing pages without allocating new ones (so that many
+		// flushes write only pages the header already knows: the class in which nothing may be lost),
+		// some that split
+		switch x := r.Intn(12); {
+		case x < 3:
+			d.insertv(t.name, nil, [][]interface{}{genRowValues(r, t, false)})
+		case x < 5:
 			var rows [][]interface{}
-			for k, m := 0, r.Range(1, 6); k < m; k++ {
+			for k, m := 0, r.Range(2, 6); k < m; k++ {
 				rows = append(rows, genRowValues(r, t, false))
 			}
 			d.insertv(t.name, nil, rows)
 		case x < 7:
 			d.stmt("DELETE FROM " + t.name + " WHERE " + genWhere(r, t))
-		case x < 8:
+		case x < 10:
 			d.stmt("UPDATE " + t.name + " SET " + genSet(r, t) + " WHERE " + genWhere(r, t))
-		case x < 9 && len(tables) < 3:
+			u := tables[r.Intn(len(tables))]
+			d.stmt("UPDATE " + u.name + " SET " + genSet(r, u))
+		case x < 11 && len(tables) < 3:
 			mk()
 		}
 		if r.Chance(1, 6) && d.rs != nil {
@@ -1213,7 +1316,7 @@ func runFlushCrashes(cfg *config, id int, r *hx.Rng) {
 			}
 			d.selectEvery()
 		}
-		if r.Chance(1, 2) {
+		if r.Chance(2, 5) {
 			d.selectEvery()
 			if r.Chance(1, 4) {
 				d.withFlushCrashPoints("close", func() { d.reopen() })
